@@ -2,18 +2,21 @@
 """usage: tools/mkdrill.py <ID> <slug> <repo-relative file> <<< "OLD\n=====\nNEW"   (textual replacement -> drills/<ID>/<slug>.diff)"""
 import os, subprocess, sys, tempfile
 pid, slug, rel = sys.argv[1:4]
-old, new = sys.stdin.read().split("\n=====\n")
-new = new.rstrip("\n") if not new.endswith("\n\n") else new
-old = old.rstrip("\n")
+pairs = []
+for chunk in sys.stdin.read().split("\n#####\n"):
+    old, new = chunk.split("\n=====\n")
+    pairs.append((old.rstrip("\n"), new.rstrip("\n")))
 V = os.path.dirname(os.path.dirname(os.path.abspath(__file__)))
 wt = tempfile.mkdtemp(prefix="verif-mkdrill-", dir="/tmp"); os.rmdir(wt)
 subprocess.check_call(["git", "-C", "/repo", "worktree", "add", "-q", "--detach", wt, "HEAD"])
 try:
     p = os.path.join(wt, rel)
     s = open(p).read()
-    if s.count(old) != 1:
-        raise SystemExit("old text occurs %d times in %s" % (s.count(old), rel))
-    open(p, "w").write(s.replace(old, new))
+    for old, new in pairs:
+        if s.count(old) != 1:
+            raise SystemExit("old text occurs %d times in %s: %r" % (s.count(old), rel, old[:60]))
+        s = s.replace(old, new)
+    open(p, "w").write(s)
     d = subprocess.check_output(["git", "-C", wt, "diff"]).decode()
     os.makedirs(os.path.join(V, "drills", pid), exist_ok=True)
     open(os.path.join(V, "drills", pid, slug + ".diff"), "w").write(d)
